@@ -279,6 +279,98 @@ pub fn h_grow_insert_t(n: usize, cap: usize, tab: [u8; 8], nd: bool, tfix: i8) {
     vend!();
 }
 
+/// An insertion into a FULL table whose limit forces the eviction of exactly the LRU entry first.
+/// With solver-chosen tombstones/placement the evicted bucket may stay unusable, so that the
+/// insertion finds the table without growth left. The hashing budget (C20): without growth of the
+/// capacity at most 2 + 1 hashes, with growth additionally one per held entry.
+pub fn h_insert_evict_tomb(n: usize, cap: usize, tab: [u8; 8]) {
+    let (mut c, st, exp0) = build_shaped_t(n, cap, tab, 0, true, 0);
+    // after touching key 0 the LRU entry is key 1; the new entry has exactly its size
+    let lru = if n >= 2 { 1 } else { 0 };
+    let cap0 = c.capacity();
+    let len0 = c.len();
+    let r = c.insert(Key::new(n as u8, NEW_KID), Val { heap: st.heaps[lru], id: NEW_VID });
+    let hashes = unsafe { HASHES };
+    vassert!([C04, C20], matches!(r, Ok(None)), "a fresh insertion that evicts the LRU entry did not succeed");
+    drop(r);
+    vassert!([C03, C20], c.len() == len0 && !c.contains(&(lru as u8)), "the insertion did not evict exactly the LRU entry");
+    let grew = c.capacity() > cap0;
+    vcover!(grew, "evicting insert: the table had to grow (tombstone / no growth left)");
+    vcover!(!grew, "evicting insert: no growth");
+    if grew {
+        vassert!([C20], hashes <= 2 + 1 + len0, "a growing insertion computed more than 2 + evicted + held key hashes");
+    } else {
+        vassert!([C20], hashes <= 2 + 1, "an insertion that does not grow the table computed more than two key hashes plus one per evicted entry");
+    }
+    inv(&c, n + 1);
+    std::mem::forget(c);
+    #[cfg(not(kani))]
+    evict_rehash_witness();
+    vend!();
+}
+
+/// Native only (replay): the same situation at a scale where the real hashbrown leaves tombstones:
+/// 28 entries fill a 32-bucket table exactly (identity hasher), the limit is exhausted, and one more
+/// insertion evicts the LRU entry from inside a run of occupied buckets.
+#[cfg(not(kani))]
+fn evict_rehash_witness() {
+    static mut COUNT: usize = 0;
+    #[derive(Clone, Default)]
+    struct IdBuild;
+    #[derive(Default)]
+    struct IdHasher(u64);
+    impl Hasher for IdHasher {
+        fn finish(&self) -> u64 {
+            self.0
+        }
+        fn write(&mut self, b: &[u8]) {
+            for (i, x) in b.iter().enumerate().take(8) {
+                self.0 |= (*x as u64) << (8 * i);
+            }
+        }
+        fn write_u64(&mut self, v: u64) {
+            self.0 = v;
+        }
+    }
+    impl BuildHasher for IdBuild {
+        type Hasher = IdHasher;
+        fn build_hasher(&self) -> IdHasher {
+            unsafe { COUNT += 1; }
+            IdHasher(0)
+        }
+    }
+    let unit = entry_size(&0u64, &0u64);
+    let mut c: LruCache<u64, u64, IdBuild> = LruCache::with_capacity_and_hasher(28 * unit, 28, IdBuild);
+    let mut i = 0u64;
+    while i < 28 {
+        c.insert(i, i).unwrap();
+        i += 1;
+    }
+    let cap0 = c.capacity();
+    let len0 = c.len();
+    unsafe { COUNT = 0; }
+    c.insert(28, 28).unwrap();
+    let hashes = unsafe { COUNT };
+    let grew = c.capacity() > cap0;
+    eprintln!("witness: evicting insert at len {} capacity {} -> {}: {} hashes", len0, cap0, c.capacity(), hashes);
+    if grew {
+        vassert!([C20], hashes <= 2 + 1 + len0, "a growing insertion computed more than 2 + evicted + held key hashes");
+    } else {
+        vassert!([C20], hashes <= 2 + 1, "an insertion that does not grow the table computed more than two key hashes plus one per evicted entry");
+    }
+    // the same for a lowered limit and a growing mutate: neither rebuilds the table
+    let mut d: LruCache<u64, u64, IdBuild> = LruCache::with_capacity_and_hasher(28 * unit, 28, IdBuild);
+    let mut i = 0u64;
+    while i < 28 {
+        d.insert(i, i).unwrap();
+        i += 1;
+    }
+    unsafe { COUNT = 0; }
+    d.set_max_size(27 * unit);
+    let hashes = unsafe { COUNT };
+    vassert!([C20], hashes <= 2 + 1, "set_max_size evicting one entry computed more than two key hashes plus one per evicted entry");
+}
+
 /// Native only (replay): the churn bound at a scale where the real hashbrown
 /// produces tombstones - a sliding window of 20 consecutive keys under an
 /// identity hasher, explicit removals and eviction-driven churn; capacity must
@@ -385,7 +477,7 @@ pub fn h_clone_s(n: usize, cap: usize, tab: [u8; 8], op: u8, side: u8, nd: bool,
         while j < n + 1 {
             match (a.next(), b.next()) {
                 (Some((ka, va)), Some((kb, vb))) => {
-                    vcheck!(ka.k == kb.k && va.heap == vb.heap, "[C14 C05 C04 ] the clone's entries or their order differ from the source's");
+                    vcheck!(ka.k == kb.k && (va.heap & !1) == vb.heap, "[C14 C05 C04 ] the clone's entries or their order differ from the source's");
                     vcheck!(kb.id == ka.id + 16 && vb.id == va.id + 16, "[C14 ] the clone does not own its own copies of the keys and values");
                     vcheck!(!std::ptr::eq(ka, kb), "[C14 ] the clone shares an entry with the source");
                 }
@@ -415,7 +507,7 @@ pub fn h_clone_s(n: usize, cap: usize, tab: [u8; 8], op: u8, side: u8, nd: bool,
     });
     check_state(&c, &st, &exp, Want { evicting: false });
     inv(&c, n + 1);
-    inv(&d, n + 1);
+    inv_nosize(&d, n + 1);
     // independence: one operation on one side leaves the other side untouched
     let (mut x, y) = if side == 0 { (d, c) } else { (c, d) };
     let fy = fp(&y, n + 1);
@@ -449,10 +541,10 @@ pub fn h_clone_s(n: usize, cap: usize, tab: [u8; 8], op: u8, side: u8, nd: bool,
         }
         _ => {}
     }
-    inv(&x, n + 2);
+    inv_nosize(&x, n + 2);
     drop(x);
     vassert!([C14], fp(&y, n + 1).same(&fy), "an operation on one cache (or dropping it) affected its clone / source");
-    inv(&y, n + 1);
+    inv_nosize(&y, n + 1);
     // the survivor is fully intact: every key still found, order walkable both ways
     vblock!([C14, C07], {
         let mut k = 0u8;
@@ -461,8 +553,28 @@ pub fn h_clone_s(n: usize, cap: usize, tab: [u8; 8], op: u8, side: u8, nd: bool,
             k += 1;
         }
     });
+    // Emptying the untouched side entry by entry: every removal lowers current_size by the size
+    // recorded in the SOURCE for that entry (a clone copies the recorded sizes together with the
+    // total), and the total ends at 0.
     let mut y = y;
-    drain_probe(&mut y, n + 1);
+    vblock!([C14, C02], {
+        let mut j = 0;
+        while j < n + 1 {
+            let want: Option<usize> = if j < n {
+                if exp.alive[j] { Some(st.sz[j]) } else { None }
+            } else {
+                exp.tail.map(|t| st.sz[t.k as usize])
+            };
+            if let Some(w) = want {
+                let before = y.current_size();
+                let r = y.remove_lru();
+                vcheck!(r.is_some() && before >= w && y.current_size() == before - w, "[C14 C02 ] removing an entry from a cache (or its clone) does not lower current_size by the size accounted for it");
+                drop(r);
+            }
+            j += 1;
+        }
+        vcheck!(y.len() == 0 && y.current_size() == 0, "[C14 C02 ] a cache (or its clone) emptied entry by entry does not end with current_size 0");
+    });
     drop(y);
     // every original and every cloned key/value dropped exactly once
     vblock!([C06, C14], {
@@ -492,6 +604,8 @@ harnesses! {
     try_reserve_n3_c3_t1_fail [6] => h_capacity_ta(3, 3, tab_of(6), 1, false, 1, 4, 1); //@ q=C07,C06,C04,C13 to=900
     try_reserve_n3_c3_t0_ok [6] => h_capacity_ta(3, 3, tab_of(6), 1, false, 0, 2, 0); //@ q=C07 to=900
     shrink_to_n2_c7_t1_a3 [5] => h_capacity_ta(2, 7, tab_of(6), 2, false, 1, 3, 0); //@ q=C07,C06 to=900
+    try_reserve_n0_c3 [4] => h_capacity(0, 3, tab_of(6), 1, false); //@ q=C13 t=C07 to=600
+    try_reserve_n0_c7_fail [4] => h_capacity_ta(0, 7, tab_of(6), 1, false, -1, 1 << 61, 1); //@ q=C13 to=600
     try_reserve_n0_c0 [4] => h_capacity(0, 0, tab_of(6), 1, false); //@ q=C13 to=600
     shrink_to_n2_c7_t0 [5] => h_capacity_t(2, 7, tab_of(6), 2, false, 0); //@ q=C13 t=C07,C04,C05,C06,C20 to=900
     shrink_to_n2_c7_t1 [5] => h_capacity_t(2, 7, tab_of(6), 2, false, 1); //@ q=C13 t=C07,C04,C05,C06,C20 to=900
@@ -509,6 +623,7 @@ harnesses! {
     grow_insert_n0_c0 [4] => h_grow_insert(0, 0, tab_of(6), false); //@ q=C13,C07,C20 to=600
     grow_insert_n3_c3_collide_t1 [6] => h_grow_insert_t(3, 3, tab_of(0), false, 1); //@ q=C04 t=C13,C07 to=1200
     grow_insert_n3_c3_nd [6] => h_grow_insert(3, 3, tab_of(6), true); //@ t=C13,C07 to=2400
+    insert_evict_tomb_n3_c3 [6] => h_insert_evict_tomb(3, 3, tab_of(6)); //@ q=C20 t=C03,C04 to=1200
     with_capacity_n3 [5] => h_with_capacity(3, tab_of(6), false); //@ q=C13 to=900
     with_capacity_n4 [6] => h_with_capacity(4, tab_of(6), false); //@ t=C13 to=1200
     clone_n3_c3 [6] => h_clone(3, 3, tab_of(6), 0, 0, false); //@ q=C14,C19,C06,C20,C05 t=C07,C13 to=900
@@ -523,5 +638,7 @@ harnesses! {
     clone_n3_c3_exactly_full [6] => h_clone_s(3, 3, tab_of(6), 0, 0, false, 0, -1); //@ q=C14,C19,C01 to=900
     clone_n2_c7_spare [5] => h_clone_s(2, 7, tab_of(6), 0, 0, false, 64, 0); //@ q=C14,C13 to=900
     clone_n7_c7_t3 [10] => h_clone_s(7, 7, tab_of(6), 0, 0, false, 64, 3); //@ q=C20 t=C14,C19 to=1500
+    clone_n0_small_limit [4] => h_clone_s(0, 0, tab_of(6), 0, 0, false, 5, -1); //@ q=C14 to=600
+    clone_n0_c3_small_limit [4] => h_clone_s(0, 3, tab_of(6), 0, 0, false, 6, -1); //@ q=C14 to=600
     clone_n0 [4] => h_clone(0, 0, tab_of(6), 1, 0, false); //@ q=C14 to=600
 }
